@@ -98,7 +98,7 @@ func verifC37PipeChoose() verifC37PipeCase {
 	if c.method == "u" || c.method == "v" {
 		c.outcome = verifChoice("outcome", 5) // value, error, rpc error, panic, param mismatch
 	} else {
-		c.outcome = verifChoice("init", 4) // state, error, panic, param mismatch
+		c.outcome = verifChoice("init", 6) // state, error, panic, param mismatch, nil result, state of the wrong kind
 		c.turn = verifChoice("turn", verifNTurnKinds)
 		c.ticks = verifChoice("ticks", 3)
 	}
@@ -125,6 +125,11 @@ func (c verifC37PipeCase) run(hook *verifC37Hook) ([]*verifOutStream, error) {
 				return nil, errors.New("init failed")
 			case 2:
 				panic("init panicked")
+			case 4:
+				return (*StreamResult)(nil), nil
+			case 5:
+				// a state that implements neither ProducerState nor ExchangeState
+				return &StreamResult{OutputSchema: verifDataSchema, State: &struct{}{}}, nil
 			}
 			return &StreamResult{OutputSchema: verifDataSchema, State: state}, nil
 		}
@@ -154,7 +159,7 @@ func (c verifC37PipeCase) run(hook *verifC37Hook) ([]*verifOutStream, error) {
 // Pipe: one start, one end, the end's error matches the response, hook panics change nothing.
 //
 //verif:use ipc pipe handler
-//verif:bound one dispatched call through serveOne: unary/void (value, error, RpcError, panic, parameter mismatch) or producer/exchange (init ok/error/panic/parameter mismatch, first turn any of 8 outcomes, 0..2 input batches); hook normal, panicking in start, or panicking in end; each scenario is run with the chosen hook and again with a well-behaved hook and the two responses are compared
+//verif:bound one dispatched call through serveOne: unary/void (value, error, RpcError, panic, parameter mismatch) or producer/exchange (init ok/error/panic/parameter mismatch/nil result/state of the wrong kind, first turn any of 8 outcomes, 0..2 input batches); hook normal, panicking in start, or panicking in end; each scenario is run with the chosen hook and again with a well-behaved hook and the two responses are compared
 func verifH_C37_pipe() {
 	c := verifC37PipeChoose()
 	hook := &verifC37Hook{}
@@ -204,7 +209,7 @@ func verifC37HTTPChoose() verifC37HTTPCase {
 		c.outcome = verifChoice("outcome", 5)
 	case 1:
 		c.method = []string{"p", "x"}[verifChoice("stream", 2)]
-		c.outcome = verifChoice("init", 4)
+		c.outcome = verifChoice("init", 6)
 		c.turn = verifChoice("turn", verifNTurnKinds)
 		c.seal = verifNondetBool("seal_fails")
 	default:
@@ -260,6 +265,11 @@ func (c verifC37HTTPCase) run(hook *verifC37Hook) (*verifRecorder, []*verifOutSt
 				return nil, errors.New("init failed")
 			case 2:
 				panic("init panicked")
+			case 4:
+				return (*StreamResult)(nil), nil
+			case 5:
+				// a state that implements neither ProducerState nor ExchangeState
+				return &StreamResult{OutputSchema: verifDataSchema, State: &struct{}{}}, nil
 			}
 			return &StreamResult{OutputSchema: verifDataSchema, State: state}, nil
 		}
@@ -295,7 +305,7 @@ func (c verifC37HTTPCase) run(hook *verifC37Hook) (*verifRecorder, []*verifOutSt
 //
 //verif:use ipc pipe handler httpx tokens
 //verif:stub (*github.com/Query-farm/vgi-rpc-go/vgirpc.HttpServer).sealToken = verifC37Seal
-//verif:bound one dispatched call: unary/void (value, error, RpcError, panic, parameter mismatch); stream init of a producer (batch limit 1) or exchange (init ok/error/panic/parameter mismatch, first turn any of 8 outcomes, cursor seal succeeding or failing as gob does for an unregistered state type); continuation of a producer or exchange stream with genuine tokens (turn any of 8 outcomes, seal succeeding or failing, cancel or not); hook normal / panicking in start / panicking in end
+//verif:bound one dispatched call: unary/void (value, error, RpcError, panic, parameter mismatch); stream init of a producer (batch limit 1) or exchange (init ok/error/panic/parameter mismatch/nil result/state of the wrong kind, first turn any of 8 outcomes, cursor seal succeeding or failing as gob does for an unregistered state type); continuation of a producer or exchange stream with genuine tokens (turn any of 8 outcomes, seal succeeding or failing, cancel or not); hook normal / panicking in start / panicking in end
 func verifH_C37_http() {
 	c := verifC37HTTPChoose()
 	hook := &verifC37Hook{}
